@@ -5,6 +5,8 @@ type nat =
 | O
 | S of nat
 
+val option_map : ('a1 -> 'a2) -> 'a1 option -> 'a2 option
+
 val fst : ('a1 * 'a2) -> 'a1
 
 val snd : ('a1 * 'a2) -> 'a2
@@ -28,13 +30,15 @@ val mul : nat -> nat -> nat
 
 val sub : nat -> nat -> nat
 
+val eqb : nat -> nat -> bool
+
 val divmod : nat -> nat -> nat -> nat -> nat * nat
 
 val div : nat -> nat -> nat
 
 val modulo : nat -> nat -> nat
 
-val eqb : bool -> bool -> bool
+val eqb0 : bool -> bool -> bool
 
 module Nat :
  sig
@@ -54,6 +58,8 @@ module Nat :
 
   val modulo : nat -> nat -> nat
  end
+
+val tl : 'a1 list -> 'a1 list
 
 val nth : nat -> 'a1 list -> 'a1 -> 'a1
 
@@ -144,6 +150,8 @@ module Coq_Pos :
 
   val pow : positive -> positive -> positive
 
+  val size_nat : positive -> nat
+
   val size : positive -> positive
 
   val compare_cont : comparison -> positive -> positive -> comparison
@@ -181,6 +189,8 @@ module N :
 
   val succ : n -> n
 
+  val pred : n -> n
+
   val add : n -> n -> n
 
   val sub : n -> n -> n
@@ -208,6 +218,8 @@ module N :
   val pow : n -> n -> n
 
   val size : n -> n
+
+  val size_nat : n -> nat
 
   val pos_div_eucl : positive -> n -> n * n
 
@@ -239,7 +251,7 @@ module N :
 type ascii =
 | Ascii of bool * bool * bool * bool * bool * bool * bool * bool
 
-val eqb0 : ascii -> ascii -> bool
+val eqb1 : ascii -> ascii -> bool
 
 val n_of_digits : bool list -> n
 
@@ -306,7 +318,7 @@ type string =
 | EmptyString
 | String of ascii * string
 
-val eqb1 : string -> string -> bool
+val eqb2 : string -> string -> bool
 
 type bits = bool list
 
@@ -373,6 +385,8 @@ val pIndex : n
 val pSlice : n
 
 val pNil : n
+
+val pExplicit : n
 
 val pShift : n
 
@@ -611,6 +625,8 @@ val cell_alloc : n
 val parse_boc : bytes -> parsed res
 
 val t_PRUNED : n
+
+val t_LIBRARY : n
 
 val t_MPROOF : n
 
@@ -1806,5 +1822,920 @@ val same_as_schema : schema -> value -> ctree -> bool
 val run_spec : sx -> sx
 
 val run_extmsg : sx -> sx
+
+val take : n -> 'a1 list -> ('a1 list * 'a1 list) * n
+
+val slice : nat -> nat -> 'a1 list -> 'a1 list
+
+val bytes_eqb0 : n list -> n list -> bool
+
+val len0 : 'a1 list -> n
+
+val le1 : n -> n list
+
+val of_le32 : n list -> n
+
+val pub_ed25519_tag : n list
+
+val handshake_len : nat
+
+val frame_min : n
+
+val frame_max : n
+
+val keystream : ('a1 -> n * 'a1) -> 'a1 -> nat -> n list * 'a1
+
+val xor_bytes : n list -> n list -> n list
+
+val ctr : ('a1 -> n * 'a1) -> 'a1 -> n list -> n list * 'a1
+
+val key_id : (n list -> n list) -> n list -> n list
+
+val cipherA : (n list -> n list -> 'a1) -> n list -> 'a1
+
+val cipherB : (n list -> n list -> 'a1) -> n list -> 'a1
+
+type 'cstate server = { sv_params : n list; sv_tx : 'cstate; sv_rx : 'cstate }
+
+val server_accept :
+  (n list -> n list) -> ('a1 -> n * 'a1) -> (n list -> n list -> 'a1) -> (n
+  list -> n list -> n list) -> n list -> n list -> n list -> 'a1 server option
+
+val frame : (n list -> n list) -> n list -> n list -> n list
+
+val server_send :
+  (n list -> n list) -> ('a1 -> n * 'a1) -> 'a1 server -> n list -> n list ->
+  n list * 'a1 server
+
+val server_send_all :
+  (n list -> n list) -> ('a1 -> n * 'a1) -> 'a1 server -> (n list * n list)
+  list -> n list * 'a1 server
+
+type split_end =
+| SDone
+| SIncomplete
+| SBad
+| SFuel
+
+type split1 =
+| Frame of n list * n list * n list
+| Stop of split_end
+
+val split_frame : (n list -> n list) -> n list -> split1
+
+val split_frames :
+  (n list -> n list) -> nat -> n list -> (n list * n list) list * split_end
+
+val server_recv :
+  (n list -> n list) -> ('a1 -> n * 'a1) -> 'a1 server -> n list -> ((n
+  list * n list) list * split_end) * 'a1 server
+
+val fit : nat -> n list -> n list
+
+val min_packet_len : n
+
+val max_packet_len : n
+
+type reader = n list list
+
+type rd_res =
+| RdOk of n list * reader
+| RdEof
+| RdUnexp
+
+val read_full : n -> reader -> bool -> rd_res
+
+val xor_stream : ('a1 -> n * 'a1) -> 'a1 -> n list -> n list * 'a1
+
+val packet_hash : (n list -> n list) -> n list -> n list -> n list
+
+val packet_size : n list -> n list
+
+val marshal : (n list -> n list) -> n list -> n list -> n list
+
+type perr =
+| PEof
+| PUnexp
+| PLen
+| PSum
+| PFuel
+
+type 'cstate pres =
+| POk of n list * n list * reader * 'cstate
+| PErr of perr * reader
+
+val parse_packet :
+  (n list -> n list) -> ('a1 -> n * 'a1) -> reader -> 'a1 -> 'a1 pres
+
+val send_packet :
+  (n list -> n list) -> ('a1 -> n * 'a1) -> 'a1 -> n list -> n list -> n
+  list * 'a1
+
+val send_all0 :
+  (n list -> n list) -> ('a1 -> n * 'a1) -> 'a1 -> (n list * n list) list ->
+  n list * 'a1
+
+val recv_loop :
+  (n list -> n list) -> ('a1 -> n * 'a1) -> nat -> reader -> 'a1 -> n list
+  list * perr
+
+val reader_len : reader -> nat
+
+val recv_all :
+  (n list -> n list) -> ('a1 -> n * 'a1) -> reader -> 'a1 -> n list
+  list * perr
+
+val rx_key : n list -> n list
+
+val tx_key : n list -> n list
+
+val rx_nonce : n list -> n list
+
+val tx_nonce : n list -> n list
+
+val address_hash : (n list -> n list) -> n list -> n list
+
+val client_tx0 : (n list -> n list -> 'a1) -> n list -> 'a1
+
+val client_rx0 : (n list -> n list -> 'a1) -> n list -> 'a1
+
+val hs_key : n list -> n list -> n list
+
+val hs_nonce : n list -> n list -> n list
+
+val handshake_bytes :
+  (n list -> n list) -> ('a1 -> n * 'a1) -> (n list -> n list -> 'a1) -> n
+  list -> n list -> n list -> n list -> n list
+
+type client_run = { cr_handshake : n list; cr_sent : n list;
+                    cr_connected : bool; cr_delivered : n list list;
+                    cr_end : perr }
+
+val client_session :
+  (n list -> n list) -> ('a1 -> n * 'a1) -> (n list -> n list -> 'a1) -> n
+  list -> n list -> n list -> n list -> (n list * n list) list -> reader ->
+  client_run
+
+type ks = n list
+
+val ks_next : ks -> n * ks
+
+val ks_init : ((n list * n list) * n list) list -> n list -> n list -> ks
+
+val segs_of : sx -> reader option
+
+val msgs_of : sx -> (n list * n list) list option
+
+val tab_of : sx -> ((n list * n list) * n list) list option
+
+val perr_sx : perr -> sx
+
+val total_len : reader -> n
+
+val run_marshal : sx -> sx
+
+val run_parse0 : sx -> sx
+
+val run_recv : sx -> sx
+
+val cut : sx list -> n list -> reader
+
+val run_session : sx -> sx
+
+val imm_of : (bytes -> bytes) -> cell -> imm res
+
+val lookup_trees : cell res list -> nat -> nat list -> cell list res
+
+val trees_of : nat -> node list -> cell res list
+
+val eTlbMsg : n
+
+val cell_special : cell -> bool
+
+val cell_ty : cell -> n
+
+val cell_bits0 : cell -> bits
+
+val cell_refs0 : cell -> cell list
+
+val is_library_cell : cell -> bool
+
+val is_pruned_cell : cell -> bool
+
+type slc0 = { sb0 : bits; sr0 : cell list }
+
+val open1 : cell -> slc0
+
+val rd1 : nat -> slc0 -> (bits * slc0) res
+
+val rd_bit0 : slc0 -> (bool * slc0) res
+
+val rd_uint : nat -> slc0 -> (n * slc0) res
+
+val next_ref : slc0 -> (cell * slc0) res
+
+type oracle = { dict_ok : (nat -> cell -> bool); descr_ok : (cell -> bool) }
+
+type addr =
+| ANone0
+| AExt0 of bits
+| AStd0 of (n * n) option * z * bits
+| AVar0 of (n * n) option * n * z * bits
+
+val dec_int : bits -> z
+
+val enc_int : nat -> z -> bits
+
+val parse_anycast : slc0 -> ((n * n) option * slc0) res
+
+val parse_addr : slc0 -> (addr * slc0) res
+
+val parse_grams : slc0 -> (n * slc0) res
+
+val parse_var16 : slc0 -> (n * slc0) res
+
+val parse_dict : oracle -> nat -> slc0 -> (cell option * slc0) res
+
+type info =
+| IInt of bool * bool * bool * addr * addr * n * cell option * n * n * n * n
+| IExtIn of addr * addr * n
+| IExtOut of addr * addr * n * n
+
+val parse_info : oracle -> slc0 -> (info * slc0) res
+
+type state_init = { si_split : n option; si_special : (bool * bool) option;
+                    si_code : cell option; si_data : cell option;
+                    si_lib : cell option }
+
+val parse_maybe_cell : slc0 -> (cell option * slc0) res
+
+val parse_state_init0 : oracle -> slc0 -> (state_init * slc0) res
+
+type msg0 = { m_info : info; m_init : (bool * state_init) option;
+              m_body_ref : bool; m_body : (bits * cell list); m_hash : 
+              bytes }
+
+val parse_message :
+  oracle -> slc0 -> (((info * (bool * state_init)
+  option) * bool) * (bits * cell list)) res
+
+val decode_message_gen : oracle -> bytes res -> cell -> msg0 res
+
+type wst = bits * bool
+
+val wr : bits -> wst -> wst
+
+val wfail : wst -> wst
+
+val ignore_err : wst -> wst
+
+val marshal_anycast : (n * n) option -> wst -> wst
+
+val marshal_addr : addr -> wst -> wst
+
+val clear_std_anycast : addr -> addr
+
+val zero_hash : bytes
+
+val hash_cell : (bytes -> bytes) -> cell -> bytes res
+
+val norm_info_bits : addr -> bits
+
+val norm_cell : addr -> (bits * cell list) -> cell res
+
+val msg_hash : (bytes -> bytes) -> bool -> msg0 -> bytes res
+
+type tx = { tx_hash : bytes; tx_src : cell; tx_account : bits; tx_lt : 
+            n; tx_prev_hash : bits; tx_prev_lt : n; tx_now : n;
+            tx_outmsg_cnt : n; tx_orig : n; tx_end : n;
+            tx_in_msg : msg0 option; tx_out_msgs : cell option; tx_fees : 
+            n }
+
+val parse_in_msg :
+  oracle -> (cell -> bytes res) -> slc0 -> (msg0 option * slc0) res
+
+val decode_tx_gen :
+  oracle -> bytes res -> (cell -> bytes res) -> cell -> tx res
+
+val cached_hash_of : imm res list -> nat -> bytes res
+
+val cached_hash : (bytes -> bytes) -> node list -> nat -> bytes res
+
+val cell_eqb : cell -> cell -> bool
+
+val table_lookup0 : cell res list -> bits -> cell -> bool
+
+val table_oracle : cell res list -> bits -> bits -> oracle
+
+val info_kind : info -> n
+
+val info_src : info -> addr
+
+val info_dest : info -> addr
+
+val addr_sx : addr -> sx
+
+val msg_sx : msg0 -> sx
+
+val with_root0 :
+  sx -> (oracle -> node list -> nat -> cell -> imm res list -> sx) -> sx
+
+val run_msg0 : sx -> sx
+
+val parses_back : bytes -> bytes -> bool
+
+val run_tx : sx -> sx
+
+val iter0 : nat -> ('a1 -> 'a1) -> 'a1 -> 'a1
+
+val crc16_poly : n
+
+val crc16_step : n -> n
+
+val crc16_byte : n -> n -> n
+
+val crc16_from : n -> n list -> n
+
+val crc16 : n list -> n
+
+val crc16_tab_byte : n list -> n -> n -> n
+
+val crc16_tab : n list -> n list -> n
+
+val b64_enc3 : n -> n -> n -> n list
+
+val b64_enc : n list -> n list
+
+val b64_dec4 : n -> n -> n -> n -> n list
+
+val b64_dec : n list -> n list
+
+val b64_char : bool -> n -> n
+
+val b64_digit : bool -> n -> n option
+
+val b64_digits : bool -> n list -> n list option
+
+val plus_slash : n -> n
+
+val is_crlf : n -> bool
+
+val len_mod4 : 'a1 list -> bool
+
+val b64url_decode_string : n list -> n list option
+
+val human_flag : bool -> bool -> n
+
+val go_parse_address_bounce : n -> bool
+
+val wc_byte : z -> n
+
+val int8_of_byte : n -> z
+
+val be16_bytes : n -> n list
+
+val be0 : n -> n -> n
+
+val human_body : bool -> bool -> z -> n list -> n list
+
+val human_bytes : n list -> bool -> bool -> z -> n list -> n list
+
+val human_digits : n list -> bool -> bool -> z -> n list -> n list
+
+val print_human : n list -> bool -> bool -> bool -> z -> n list -> n list
+
+val len_is : nat -> 'a1 list -> bool
+
+val parse_human_bytes : n list -> ((n * z) * n list) res
+
+val parse_human : n list -> ((n * z) * n list) res
+
+val hex_lower : n -> n
+
+val hex_byte : n -> n list
+
+val hex_val : n -> n option
+
+val hex_decode0 : n list -> n list option
+
+val dec_rev : nat -> n -> n list
+
+val dec_N : n -> n list
+
+val dec_Z : z -> n list
+
+val dec_value : n -> n list -> n option
+
+val parse_int : n -> n list -> z option
+
+val split_colon0 : n list -> (n list * n list) option
+
+val print_raw : z -> n list -> n list
+
+val zero_fill : nat -> n list -> n list
+
+val parse_raw : n list -> (z * n list) res
+
+val parse_account : n list -> (z * n list) res
+
+val b64_digits_prefix : n list -> n list
+
+val parse_address_lax : n list -> ((z * n list) * bool) res
+
+val le32_bytes : n -> n list
+
+val int32_of_N : n -> z
+
+val tl_marshal : z -> n list -> n list
+
+val tl_unmarshal : n list -> (z * n list) res
+
+val m64 : n
+
+val u64_of_Z0 : z -> n
+
+val i64_of_N0 : n -> z
+
+val ctz_pos : positive -> n
+
+val ctz64 : n -> n
+
+val shl64 : n -> n -> n
+
+type shard = { sh_prefix : n; sh_mask : n }
+
+val parse_shard : n -> shard res
+
+val shard_encode : shard -> n res
+
+val be1 : n list -> n
+
+val shard_match_prefix : shard -> n -> bool
+
+val shard_match : shard -> n list -> bool
+
+val shard_match_block : shard -> n -> bool
+
+val lowbit64 : n -> n
+
+val shard_child : n -> bool -> n
+
+val shard_parent : n -> n
+
+val shard_of_ident : n -> n -> n
+
+val get_parents : n -> n -> bool -> bool -> n list
+
+val to_bits : nat -> n list -> bits
+
+val chunks : nat -> nat -> bits -> bits list
+
+val from_bits : nat -> nat -> bits -> n list
+
+val b32_char : n -> n
+
+val to_upper : n -> n
+
+val b32_digit : n -> n option
+
+val b32_digits : n list -> n list option
+
+val adnl_bytes : n list -> n list -> n list
+
+val adnl_print : n list -> n list -> n list
+
+val adnl_suffix : n list
+
+val list_eqb : n list -> n list -> bool
+
+val trim_suffix : n list -> n list -> n list
+
+val is_pad : n -> bool
+
+val padded_tail_ok : n list -> bool
+
+val adnl_parse : n list -> n list -> n list res
+
+val take0 : nat -> bits -> (bits * bits) res
+
+val bits_of_int : nat -> z -> bits
+
+val int_of_bits : bits -> z
+
+val bytes_bits1 : n list -> bits
+
+val bits_bytes0 : nat -> bits -> n list
+
+type msgaddr =
+| MANone
+| MAExtern of bits
+| MAStd of (n * n) option * z * n list
+| MAVar of (n * n) option * n * z * bits
+
+val enc_anycast : (n * n) option -> bits res
+
+val tlb_encode : msgaddr -> bits res
+
+val dec_anycast : bits -> ((n * n) option * bits) res
+
+val tlb_decode : bits -> (msgaddr * bits) res
+
+val int8_of_Z : z -> z
+
+val to_msg_address : z -> n list -> msgaddr
+
+val m0 : n
+
+val shl32 : n -> n -> n
+
+val sub32 : n -> n -> n
+
+val be2 : n list -> n
+
+val be32_bytes : n -> n list
+
+val anycast_rewrite : n -> n -> n list -> n list
+
+val account_from_tlb : msgaddr -> (z * n list) option res
+
+val account_from_tlb_bits : bits -> (z * n list) option res
+
+val json_marshal : z -> n list -> n list
+
+val is_ws : n -> bool
+
+val drop_ws : n list -> n list
+
+val json_str_body : n list -> (n list * n list) option
+
+val json_unmarshal : n list -> (z * n list) res
+
+val crc16_table : n list
+
+val out_acc : (z * n list) res -> sx
+
+val run_crc16 : sx -> sx
+
+val run_human : sx -> sx
+
+val run_parse_human : sx -> sx
+
+val run_parse_address : sx -> sx
+
+val run_raw0 : sx -> sx
+
+val run_parse_raw : sx -> sx
+
+val run_parse_account : sx -> sx
+
+val run_tl : sx -> sx
+
+val run_untl : sx -> sx
+
+val run_shard_parse : sx -> sx
+
+val run_shard_match : sx -> sx
+
+val run_shard_match_block : sx -> sx
+
+val run_shard_child : sx -> sx
+
+val run_shard_parent : sx -> sx
+
+val run_shard_ident : sx -> sx
+
+val run_parents : sx -> sx
+
+val run_adnl : sx -> sx
+
+val run_parse_adnl : sx -> sx
+
+val out_bits : bits res -> sx
+
+val out_acc_opt : (z * n list) option res -> sx
+
+val run_tlb : sx -> sx
+
+val any_of0 : bool -> n -> n -> (n * n) option
+
+val run_tlb_any : sx -> sx
+
+val run_untlb : sx -> sx
+
+val run_from_tlb : sx -> sx
+
+val run_json : sx -> sx
+
+val run_unjson : sx -> sx
+
+type str = n list
+
+val eSyntax : n
+
+val eRange : n
+
+val eJson : n
+
+val is_digit : n -> bool
+
+val ch_quote : n
+
+val ch_colon : n
+
+val ch_minus : n
+
+val ch_plus : n
+
+val ch_under : n
+
+val str_eqb : str -> str -> bool
+
+val has_prefix : str -> str -> str option
+
+val has_prefix_b : str -> str -> bool
+
+val has_suffix_b : str -> str -> bool
+
+val go_slice : nat -> nat -> str -> str res
+
+val trim_left : (n -> bool) -> str -> str
+
+val trim : (n -> bool) -> str -> str
+
+val is_quote : n -> bool
+
+val is_quote_sp_nl : n -> bool
+
+val trim_quotes : str -> str
+
+val split_on : n -> str -> str list
+
+val dec_rev0 : nat -> n -> str
+
+val print_N : n -> str
+
+val print_Z : z -> str
+
+val dec_value0 : n -> str -> n option
+
+val parse_udec : str -> n option
+
+val parse_sdec : str -> (bool * n) option
+
+val parse_uint : n -> str -> n res
+
+val parse_int0 : n -> str -> z res
+
+val parse_big : str -> z res
+
+val hex_lower0 : n -> n
+
+val hex_upper : n -> n
+
+val hex_byte0 : n -> str
+
+val print_hex : n list -> str
+
+val hex_val0 : n -> n option
+
+val hex_decode1 : str -> n list option
+
+val hexn_rev : nat -> n -> str
+
+val print_hex_N : n -> str
+
+val hexn_value : n -> str -> n option
+
+val parse_uint_hex64 : str -> n res
+
+val rune_error : n
+
+val cont : n -> bool
+
+val in_rng : n -> n -> n -> bool
+
+val second_ok : n -> n -> bool
+
+val runes : str -> n list
+
+val encode_rune : n -> str
+
+val utf8_fix : str -> str
+
+type jst =
+| JBeginValueOrEmpty
+| JBeginValue
+| JBeginStringOrEmpty
+| JBeginString
+| JEndValue
+| JEndTop
+| JInString
+| JEsc
+| JEscU of nat
+| JNeg
+| J1
+| J0
+| JDot
+| JDot0
+| JE
+| JESign
+| JE0
+| JLit of str
+| JError
+
+type pst =
+| PKey
+| PVal
+| PArr
+
+type scanner = { sc_st : jst; sc_stack : pst list; sc_depth : n; sc_end : bool }
+
+val max_nesting : n
+
+val json_space : n -> bool
+
+val sc_err : scanner -> scanner
+
+val sc_to : scanner -> jst -> scanner
+
+val sc_push : scanner -> pst -> jst -> scanner
+
+val sc_pop : scanner -> pst list -> scanner
+
+val is_hex : n -> bool
+
+val st_end_top : scanner -> n -> scanner
+
+val st_end_value : scanner -> n -> scanner
+
+val st_begin_value : scanner -> n -> scanner
+
+val st_begin_string : scanner -> n -> scanner
+
+val st_0 : scanner -> n -> scanner
+
+val st_esign : scanner -> n -> scanner
+
+val sc_step : scanner -> n -> scanner
+
+val sc_init : scanner
+
+val json_valid : str -> bool
+
+val json_item : str -> str
+
+val hex4 : n -> n -> n -> n -> n option
+
+val is_surrogate : n -> bool
+
+val utf16_pair : n -> n -> n option
+
+val esc_char : n -> n option
+
+val unescape : str -> str option
+
+val json_unmarshal_string : str -> str res
+
+val json_plain : n -> bool
+
+val quote : str -> str
+
+val json_marshal_string : str -> str res
+
+val fmt_space : n -> bool
+
+val skip_space : n list -> n list res
+
+val span_digits : n list -> str * n list
+
+val scan_uint32 : n list -> (n * n list) res
+
+val sscanf_d_d : str -> (n * n) res
+
+val scan_hex_pairs : n list -> (n list * n list) res
+
+val fscanf_quoted_hex : str -> n list * bool
+
+val len_is0 : nat -> 'a1 list -> bool
+
+val json_unmarshal0 : (str -> 'a1 res) -> str -> 'a1 res
+
+val quoted_width : n -> bool
+
+val print_uint : n -> n -> str
+
+val parse_uint_json : n -> str -> n res
+
+val print_int0 : n -> z -> str
+
+val parse_int_json : n -> str -> z res
+
+val print_big : z -> str
+
+val parse_big_json : str -> z res
+
+val print_bytes_hex : n list -> str
+
+val parse_bytes_hex : nat -> str -> n list res
+
+val print_grams : n -> str
+
+val parse_grams0 : str -> n res
+
+val print_coins : z -> str
+
+val parse_coins : str -> z res
+
+val s_0x : str
+
+val print_magic : n -> str
+
+val parse_magic : str -> n res
+
+val s_null : str
+
+val parse_maybe : (str -> 'a1 res) -> str -> 'a1 option res
+
+val print_cell : ('a1 -> n list res) -> 'a1 -> str res
+
+val parse_cell0 : (n list -> 'a1 list res) -> str -> 'a1 res
+
+val fift_chars : bits -> str
+
+val ref_suffix0 : n -> bits option
+
+val hex_digits0 : n list -> n list option
+
+val ends_under : str -> bool
+
+val from_fift_str : str -> bits res
+
+val print_bitstring : bits -> str
+
+val parse_bitstring : str -> bits res
+
+type anycast = (n * n) option
+
+type msgaddr0 =
+| AddrNone
+| AddrExtern of bits
+| AddrStd of anycast * z * n list
+| AddrVar of anycast * n * z * bits
+
+val s_anycast0 : str
+
+val print_anycast : anycast -> str
+
+val print_msgaddr : msgaddr0 -> str
+
+val parse_anycast0 : str -> (n * n) res
+
+val parse_addr_value : str -> msgaddr0 res
+
+val parse_msgaddr : str -> msgaddr0 res
+
+val parse_ton_bits256 : str -> n list res
+
+val print_tl_int256 : n list -> str res
+
+val parse_tl_int256 : str -> n list res
+
+val print_account : z -> n list -> str res
+
+val parse_account_json : str -> (z * n list) res
+
+val out_res0 : ('a1 -> sx) -> 'a1 res -> sx
+
+val sx_any : anycast -> sx
+
+val any_of_sx : sx -> anycast option
+
+val sx_addr : msgaddr0 -> sx
+
+val addr_of_sx : sx -> msgaddr0 option
+
+val deser_roots : n list -> sx list res
+
+val print_fam : string -> sx -> sx -> str res option
+
+val parse_fam : string -> sx -> (str -> sx) option
+
+val sx_str : str res -> sx
+
+val run_print : sx -> sx
+
+val as_res : (str -> sx) -> str -> sx res
+
+val sx_maybe : sx option -> sx
+
+val run_parse_with : bool -> sx -> sx
+
+val run_parse1 : sx -> sx
+
+val run_method : sx -> sx
+
+val run_valid : sx -> sx
+
+val run_unquote : sx -> sx
 
 val run : string -> sx -> sx
